@@ -15,7 +15,7 @@ text=f"""<!-- SEEDED:BEGIN -->
 property and a scratch worktree of `/repo`, and every one was confirmed (`tools/confirm_mut.sh`): it applies,
 the unedited suite passes with it, it compiles with the hooks on, and its demonstration fails with it and
 passes without it. `tools/evalmut.sh` applies a patch to `/repo`, runs the named checks (quick tier) and
-restores the tree. All {n} are caught by at least one check in the quick tier; {nm} were **missed by the
+restores the tree; `tools/evalalt.sh` (round 4) does the same on an isolated worktree and copy of the machinery. All {n} are caught by at least one check in the quick tier; {nm} were **missed by the
 check of their own property at first** (the note column says what was strengthened; they are now caught).
 
 | id | prop | change | needs | caught by (check, signature) | note |
